@@ -1444,6 +1444,12 @@ class SpaceManager(SharedSpaceOperations):
 
         old_name = cells.name
 
+        for space in self._get_subs(cells.parent):
+            if name in space.cells:
+                # Renaming would replace the sub space's cells of that name
+                raise ValueError("cannot rename to '%s': '%s' has a cells"
+                                 " of that name" % (name, space.idstr))
+
         for space in self._get_subs(cells.parent, skip_self=False):
             space.clear_subs_rootitems()
             space.cells[old_name].on_rename(name)
